@@ -280,7 +280,7 @@ func (n *Node) gateEnter(ctx context.Context, kind string, height uint64) GateVe
 	w.stats.Fault("spi-block")
 	w.ev("spi-blocked n%d %s h%d view[%d,%d]", n.idx, kind, height, g.vmin, g.vmax)
 	var res GateVerdict
-	if kind == "propose" && n.lateResultPm > 0 && w.ch.Chance("late-result", n.lateResultPm) {
+	if (kind == "propose" || kind == "commit") && n.lateResultPm > 0 && w.ch.Chance("late-result", n.lateResultPm) {
 		// a consumer whose proposal arrives after its context was cancelled (deliberately ignores ctx)
 		g.ignoresCtx = true
 		w.stats.Fault("spi-late-result")
